@@ -644,7 +644,8 @@ func runGC(c Case, s *hx.Sink) string {
 		runtime.KeepAlive(cache)
 	} else {
 		what = "cache"
-		cache, err := lru.NewCache[int, *gcObj](c.Cap, func(k int) (*gcObj, error) { return mk(k, &finV), nil }, func(int, *gcObj) {})
+		// built without a delete callback (the pointer-key variant above has one)
+		cache, err := lru.NewCache[int, *gcObj](c.Cap, func(k int) (*gcObj, error) { return mk(k, &finV), nil }, nil)
 		if err != nil {
 			s.DirectViolation(c.ID, "NewCache failed", err.Error())
 			return fmt.Sprintf("LruCase %s %s []", hx.N(c.ID), hx.Nat(c.Cap))
